@@ -1,136 +1,45 @@
-"""The boolean conditions of handle_select1_or_exit0 (src/model.rs), translated to a
-small expression type.  Props/C01 / C14 prove (by cases over the atoms) that each is the condition the Session model uses, so a
-change of a condition in the source changes the generated definition and a theorem stops checking."""
-import os, re
+"""The boolean conditions of handle_select1_or_exit0 (src/model.rs), translated to a small expression type.  Props/Select1Tables
+proves (by cases over the atoms) that each is the condition the Session model uses, so a change of a condition in the source changes
+the generated definition and a theorem stops checking.  Locals may be renamed and if/else may be re-oriented freely."""
+import os, re, sys
+sys.path.insert(0, os.path.dirname(os.path.abspath(__file__)))
+import _rustcond as rc
+from _rustcond import parse, body_of, strip_verif, cond_guarding, bound_name, one
 NAME = "Select1"
-PROPS = ["C01", "C14"]
 
-# Rust atoms -> Lean atoms
-ATOMS = {
-    "reader_stopped": "rs", "items_consumed": "ic", "matcher_stopped": "ms", "processed": "processed",
+BASE_ATOMS = {
     "self.matcher_control.is_none()": "mcNone", "self.matcher_control.is_some()": "mcSome",
-    "self.no_clear_if_empty": "nce", "matched.is_empty()": "resultEmpty",
     "self.select1": "select1", "self.exit0": "exit0", "self.sync": "sync",
-    "num_matched == 1": "one", "num_matched == 0": "zero",
 }
-
-
-def tokenize(s):
-    toks, i = [], 0
-    s = s.strip()
-    while i < len(s):
-        c = s[i]
-        if c.isspace():
-            i += 1
-        elif s.startswith("&&", i) or s.startswith("||", i):
-            toks.append(s[i:i + 2]); i += 2
-        elif c in "()!":
-            # `!` of `!=` never occurs in these conditions; `(` may open a call `foo()` — those are inside atoms
-            toks.append(c); i += 1
-        else:
-            # an atom: the longest known atom text starting here
-            best = None
-            for a in ATOMS:
-                if s.startswith(a, i) and (best is None or len(a) > len(best)):
-                    best = a
-            if best is None:
-                raise Exception("heartbeat: unknown atom at %r" % s[i:i + 40])
-            toks.append(("atom", ATOMS[best])); i += len(best)
-    return toks
-
-
-def parse(s):
-    toks = tokenize(s)
-    pos = [0]
-
-    def peek():
-        return toks[pos[0]] if pos[0] < len(toks) else None
-
-    def eat(t):
-        if peek() != t:
-            raise Exception("heartbeat: expected %r in %r" % (t, s))
-        pos[0] += 1
-
-    def p_or():
-        e = p_and()
-        while peek() == "||":
-            pos[0] += 1
-            e = "(.or %s %s)" % (e, p_and())
-        return e
-
-    def p_and():
-        e = p_not()
-        while peek() == "&&":
-            pos[0] += 1
-            e = "(.and %s %s)" % (e, p_not())
-        return e
-
-    def p_not():
-        t = peek()
-        if t == "!":
-            pos[0] += 1
-            return "(.not %s)" % p_not()
-        if t == "(":
-            pos[0] += 1
-            e = p_or()
-            eat(")")
-            return e
-        if isinstance(t, tuple):
-            pos[0] += 1
-            return "(.atom .%s)" % t[1]
-        raise Exception("heartbeat: unexpected %r in %r" % (t, s))
-
-    e = p_or()
-    if pos[0] != len(toks):
-        raise Exception("heartbeat: trailing tokens in %r" % s)
-    return e
-
-
-def body_of(src, sig):
-    i = src.index(sig)
-    j = src.index("{", i)
-    depth, k = 0, j
-    while True:
-        if src[k] == "{":
-            depth += 1
-        elif src[k] == "}":
-            depth -= 1
-            if depth == 0:
-                return src[j:k + 1]
-        k += 1
-
-
-def strip_verif(body):
-    # drop the add-only hook lines (attribute line + the statement that follows it) and the comments
-    body = re.sub(r"#\[cfg\(feature = \"verif\"\)\]\s*\n[^\n]*\n", "", body)
-    return re.sub(r"//[^\n]*", "", body)
-
-
-def one(pattern, text, what):
-    ms = re.findall(pattern, text, re.S)
-    if len(ms) != 1:
-        raise Exception("heartbeat: expected exactly one %s, found %d" % (what, len(ms)))
-    return ms[0]
 
 
 def extract(repo):
     src = open(os.path.join(repo, "src", "model.rs")).read()
     s1 = strip_verif(body_of(src, "fn handle_select1_or_exit0(&mut self"))
-    defs = []
-    # handle_select1_or_exit0
-    defs.append(("s1Skip", one(r"^\{\s*if ([^{]+)\{\s*return;", s1, "early return of handle_select1_or_exit0")))
-    defs.append(("s1MatcherStopped", one(r"let matcher_stopped = ([^;]+);", s1, "`let matcher_stopped =`")))
-    defs.append(("s1Processed", one(r"let processed = ([^;]+);", s1, "`let processed =` in handle_select1_or_exit0")))
-    conds = re.findall(r"(?:if|else if) (num_matched == [01] && self\.\w+) \{", s1)
-    if len(conds) != 2:
-        raise Exception("heartbeat: expected the accept and the abort condition, found %r" % (conds,))
-    defs.append(("s1Accept", conds[0]))
-    defs.append(("s1Abort", conds[1]))
-    if not re.search(r"if processed \{", s1):
-        raise Exception("heartbeat: the decisions are no longer guarded by `if processed`")
+    ic = bound_name(s1, r"num_not_taken\(\)\s*==\s*0", "num_not_taken() == 0")
+    rs = bound_name(s1, r"is_done", "the reader's is_done()")
+    ms = bound_name(s1, r"self\.matcher_control\.is_none\(\)", "`matcher_control.is_none()`")
+    pr = bound_name(s1, r"&&", "the conjunction `processed`")
+    nm = bound_name(s1, r"get_num_options\(\)", "the number of listed items")
+    rc.ATOMS = dict(BASE_ATOMS)
+    rc.ATOMS.update({rs: "rs", ic: "ic", ms: "ms", pr: "processed", "%s == 1" % nm: "one", "%s == 0" % nm: "zero"})
+    defs = [
+        ("s1Skip", cond_guarding(s1, "return;", "the early return of handle_select1_or_exit0")),
+        ("s1MatcherStopped", one(r"let\s+%s\s*=\s*([^;]+);" % ms, s1, "the binding of `matcher finished`")),
+        ("s1Processed", one(r"let\s+%s\s*=\s*([^;]+);" % pr, s1, "the binding of `processed`")),
+        ("s1Accept", cond_guarding(s1, "Event::EvActAccept(None)", "the accept")),
+        ("s1Abort", cond_guarding(s1, "Event::EvActAbort", "the abort")),
+    ]
+    # accept is tested before abort, and both (and the interactive fallback) only when `processed`
+    if s1.index("Event::EvActAccept(None)") > s1.index("Event::EvActAbort"):
+        raise Exception("select1: abort is now tested before accept")
+    g = cond_guarding(s1, "self.select1 = false", "the interactive fallback")
+    if "!" not in g:
+        # the fallback is the ELSE of the abort test; cond_guarding reports it as the negation of that test
+        raise Exception("select1: the interactive fallback is no longer the else-branch of the two tests")
     out = ["namespace SkimModel.Generated.Select1", "",
-           "/-- the values the conditions of the heart-beat handler are made of -/",
-           "inductive Atom | rs | ic | ms | processed | mcNone | mcSome | nce | resultEmpty | select1 | exit0 | sync | one | zero",
+           "/-- the values the conditions of the select check are made of -/",
+           "inductive Atom | rs | ic | ms | processed | mcNone | mcSome | select1 | exit0 | sync | one | zero",
            "  deriving DecidableEq, Repr", "",
            "inductive BExp | atom (a : Atom) | not (e : BExp) | and (a b : BExp) | or (a b : BExp)", "  deriving Repr", "",
            "def BExp.eval (v : Atom → Bool) : BExp → Bool",
@@ -140,10 +49,14 @@ def extract(repo):
         out.append("/-- `%s` -/" % rust)
         out.append("def %s : BExp := %s" % (name, parse(rust)))
         out.append("")
-    out += ["", "end SkimModel.Generated.Select1", ""]
+    # both decisions sit under `if processed`
+    for needle in ("Event::EvActAccept(None)", "Event::EvActAbort"):
+        outer = [c for c, t, e in rc.if_statements(s1) if needle in t and c.strip() == pr]
+        if len(outer) != 1:
+            raise Exception("select1: the decisions are no longer guarded by `if %s`" % pr)
+    out += ["end SkimModel.Generated.Select1", ""]
     return "\n".join(out)
 
 
 if __name__ == "__main__":
-    import sys
     print(extract(sys.argv[1] if len(sys.argv) > 1 else "/repo"))
